@@ -52,10 +52,10 @@ theorem accept_aux (H : Addr.Hashes) (O : Oracles) (f : Flags) (q : Quirks) (c :
     obtain ⟨p, hp, rfl⟩ := keyTable_getElem? H c.bech32 pubs k kr hk
     have hp33 : p.length = 33 := pub_len p (List.mem_of_getElem? hp)
     refine ⟨hp33, rfl, hash_len _, ?_, ?_⟩
-    · simp only [mkKey, hp33, ne_eq, not_true_eq_false, if_false]; split
+    · rw [mkKey_seg_of_33 H _ p hp33]; split
       · simp [zero20]
       · exact hash_len _
-    · intro hb; simp [mkKey, hb, hp33]
+    · intro hb; rw [mkKey_seg_of_33 H _ p hp33]; simp [mkKey, hb]
   obtain ⟨hL, hW, hT⟩ := hsigner
   generalize hT' : (signTx H c (keyTable H c.bech32 pubs) sig ms t (spent.map some)).1 = t' at h1 h2 h3
   have hctxS : (txCtxOf t' i).sigScript = (signInput H c (keyTable H c.bech32 pubs) (sig (skeleton t)) i (some uo)).scriptSig.getD inp.scriptSig := by
